@@ -201,8 +201,11 @@ func c15(c *an.Ctx) {
 					}
 					if bad != "" {
 						key := src.Name() + " → " + strings.Replace(bad, "time.Since", "time.Now", 1)
+						suffix := " → " + strings.Replace(bad, "time.Since", "time.Now", 1)
 						if reason, ok := frozen[key]; ok {
 							r.Except(key, reason)
+						} else if owner := frozenOwnerOf(c, src, suffix, frozen, 0); owner != "" {
+							r.Except(owner, frozen[owner]+" (now in the unexported helper "+src.Name()+", called only from there)")
 						} else if bad == "rand.New" || (bad == "rand.NewSource" && len(ce.Args) == 1 && !strings.Contains(f.Canon(ce.Args[0]), "time.") && !strings.Contains(f.Canon(ce.Args[0]), "rand.")) {
 							r.Except(key, "generator seeded from replicated data ("+f.Canon(ce.Args[0])+"): deterministic")
 						} else if strings.HasPrefix(bad, "rand.") && seededFromData(f, ce) {
@@ -873,4 +876,41 @@ func mentionsVar(f *an.Fn, cond ast.Expr, vars map[types.Object]bool) bool {
 		return true
 	})
 	return found
+}
+
+// frozenOwnerOf: src is an unexported function whose every static call site lies in ONE function
+// that holds the frozen exception `<fn> → <what>` (directly, or through one more such helper):
+// code extracted from an excepted function stays covered by that exception.
+func frozenOwnerOf(c *an.Ctx, src *an.FuncSrc, suffix string, frozen map[string]string, depth int) string {
+	if src == nil || src.Obj.Exported() || depth > 2 {
+		return ""
+	}
+	sites := c.P.CallsTo(src.Obj)
+	if len(sites) == 0 {
+		return ""
+	}
+	uses := 0
+	for id, o := range src.Pkg.TypesInfo.Uses {
+		if o == src.Obj && id != nil {
+			uses++
+		}
+	}
+	if uses != len(sites) {
+		return "" // also used as a value
+	}
+	owner := ""
+	for _, s := range sites {
+		if s.Caller == nil || s.Caller.Pkg != src.Pkg {
+			return ""
+		}
+		k := s.Caller.Name() + suffix
+		if _, ok := frozen[k]; !ok {
+			k = frozenOwnerOf(c, s.Caller, suffix, frozen, depth+1)
+		}
+		if k == "" || (owner != "" && owner != k) {
+			return ""
+		}
+		owner = k
+	}
+	return owner
 }
